@@ -80,7 +80,7 @@ def place_demo(seed, wt, meta):
     for s, d in meta.get("demo_copies", []):
         srcp = os.path.join(seed, "demo", s)
         dstp = os.path.join(wt, d)
-        if dstp.endswith("/") or os.path.isdir(dstp):
+        if dstp.endswith("/") or os.path.isdir(dstp) or not dstp.endswith(".go"):
             dstp = os.path.join(dstp, os.path.basename(s))
         os.makedirs(os.path.dirname(dstp), exist_ok=True)
         if os.path.isdir(srcp):
@@ -113,7 +113,7 @@ def confirm(seed):
         # full suite without the demo files
         for s, d in meta.get("demo_copies", []):
             p = os.path.join(wt, d)
-            if os.path.isdir(p) and not d.endswith(".go"):
+            if not d.endswith(".go"):
                 p = os.path.join(p, os.path.basename(s))
             if os.path.exists(p) and p.startswith(wt + "/"):
                 if os.path.isdir(p):
